@@ -147,7 +147,7 @@ type Stats struct {
 	NonFifo     int64               `json:"nonfifo_decisions"`
 	Entities    map[string]int      `json:"entities"`
 	digest      uint64
-	Digests     []string            `json:"digests,omitempty"`
+	Digests     []string `json:"digests,omitempty"`
 }
 
 // ViolationReport is a violation with its replay file.
